@@ -49,19 +49,6 @@ Proof.
   vm_compute. intro H. discriminate.
 Qed.
 
-(* KF-C15-04: the precondition is needed - `//{./}` resolves to <dir>.arrai,
-   which the bundler stores under a path the bundle run does not look at *)
-Definition w_dot : layout :=
-  [ ([zs "r"; zs "sub"; zs "main.arrai"], script 1 [rel [[]]]);
-    ([zs "r"; zs "sub.arrai"], script 2 []) ].
-
-Lemma pre_needed_dot_import :
-  exists L main, pre L main = false /\ ~ like_source quirks_off 24 L main.
-Proof.
-  exists w_dot, [zs "r"; zs "sub"; zs "main.arrai"]. split; [vm_compute; reflexivity|].
-  vm_compute. intro H. discriminate.
-Qed.
-
 (* non-vacuity: a module layout with ./, /-rooted, nested and data imports, main in a
    sub-directory; hypotheses hold under the current quirk set and the result is a real tree *)
 Definition w_ok_main : file := script 2 [rel [zs "a"]; rooted [zs "b"; zs "c"]; rel [zs "d.json"]].
